@@ -33,19 +33,21 @@ Qed.
 Lemma cstep_close_to_closed dl eio p q : cstep dl eio p HClose = Some q -> q = CClosed.
 Proof. destruct p; simpl; intros H; inversion H; reflexivity. Qed.
 
-(* CClosed is absorbing *)
-Lemma closed_stays dl eio tr q : crun dl eio CClosed tr = Some q -> q = CClosed.
+(* the closed phases are absorbing *)
+Definition closedp (p:cphase) : Prop := p = CClosed \/ p = CClosedW.
+Lemma closed_stays dl eio tr : forall p q, closedp p -> crun dl eio p tr = Some q -> closedp q.
 Proof.
-  induction tr as [|e r IH]; simpl; intros H; [inversion H; reflexivity|].
-  destruct e as [ | |z|z|z| | ]; simpl in H; try discriminate. apply IH, H.
+  induction tr as [|e r IH]; simpl; intros p q Hp H; [inversion H; subst; exact Hp|].
+  destruct Hp as [-> | ->]; destruct e as [ | |z|z|z| | ]; simpl in H; try discriminate;
+    (eapply IH; [|exact H]); unfold closedp; auto.
 Qed.
 
-(* from CFaulted only CFaulted and CClosed are reachable *)
-Lemma faulted_end dl eio tr q : crun dl eio CFaulted tr = Some q -> q = CFaulted \/ q = CClosed.
+(* from CFaulted only CFaulted and the closed phases are reachable *)
+Lemma faulted_end dl eio tr q : crun dl eio CFaulted tr = Some q -> q = CFaulted \/ closedp q.
 Proof.
   induction tr as [|e r IH]; simpl; intros H; [inversion H; left; reflexivity|].
   destruct e as [ | |z|z|z| | ]; simpl in H; try discriminate; try (apply IH, H).
-  right. eapply closed_stays, H.
+  right. eapply closed_stays; [|exact H]. left; reflexivity.
 Qed.
 
 (* a non-empty run that ends in CClosed ends with HClose *)
@@ -67,7 +69,7 @@ Proof.
   simpl in H. destruct (cstep dl eio p e) as [p'|] eqn:Hs; [|discriminate].
   unfold has_close in *. simpl. rewrite (IH p' H).
   destruct e; try reflexivity.
-  apply cstep_close_to_closed in Hs. subst p'. apply closed_stays in H. discriminate.
+  apply cstep_close_to_closed in Hs. subst p'. apply closed_stays in H; [|left; reflexivity]. destruct H; discriminate.
 Qed.
 
 (* CDoneOk is entered only by SetDeadline(zero) *)
@@ -123,7 +125,7 @@ Qed.
 
 (* phases in which the deadline has not been armed *)
 Definition pre_armed (p:cphase) : bool :=
-  match p with CStart | CDoneOk | CClosed => true | _ => false end.
+  match p with CStart | CDoneOk => true | _ => false end.
 
 Lemma crun_no_io_before_deadline tr : forall p q,
   pre_armed p = true -> crun true false p tr = Some q -> io_before_deadline tr = false.
@@ -170,14 +172,14 @@ Proof.
     simpl in Hs. inversion Hs; subst p2.
     destruct tr2 as [|e r]; [simpl in Hr; inversion Hr; subst q; discriminate|].
     simpl in Hr. destruct e as [ | |[|]|z|z| | ]; simpl in Hr; try discriminate.
-    + (* HWrite *) left. apply Hleft. apply faulted_end in Hr as [-> | ->]; [discriminate|reflexivity].
-    + (* HSetDL true *) left. apply Hleft. apply faulted_end in Hr as [-> | ->]; [discriminate|reflexivity].
+    + (* HWrite *) left. apply Hleft. apply faulted_end in Hr as [-> | [-> | ->]]; [discriminate|reflexivity|discriminate].
+    + (* HSetDL true *) left. apply Hleft. apply faulted_end in Hr as [-> | [-> | ->]]; [discriminate|reflexivity|discriminate].
     + (* HSetDL false: ignored and re-armed *) right. split; [reflexivity|]. eexists; reflexivity.
-    + (* HSetWDL *) left. apply Hleft. apply faulted_end in Hr as [-> | ->]; [discriminate|reflexivity].
-    + (* HClose *) left. apply Hleft. eapply closed_stays, Hr.
-    + (* HFail *) left. apply Hleft. apply faulted_end in Hr as [-> | ->]; [discriminate|reflexivity].
+    + (* HSetWDL *) left. apply Hleft. apply faulted_end in Hr as [-> | [-> | ->]]; [discriminate|reflexivity|discriminate].
+    + (* HClose *) left. apply Hleft. apply closed_stays in Hr; [|left; reflexivity]. destruct Hr as [-> | ->]; [reflexivity|discriminate].
+    + (* HFail *) left. apply Hleft. apply faulted_end in Hr as [-> | [-> | ->]]; [discriminate|reflexivity|discriminate].
   - assert (p2 = CFaulted) by (destruct p1; simpl in Hs; inversion Hs; try reflexivity; contradiction Hne; reflexivity).
-    subst p2. left. apply Hleft. apply faulted_end in Hr as [-> | ->]; [discriminate|reflexivity].
+    subst p2. left. apply Hleft. apply faulted_end in Hr as [-> | [-> | ->]]; [discriminate|reflexivity|discriminate].
 Qed.
 
 (* ---------------------------------------------------------------- server automaton *)
